@@ -1,16 +1,21 @@
 #!/usr/bin/env bash
 # Mutation self-test of the second part of the Go -> Lean translation (byte slices, panics,
-# loops) and of LzProofs/GenBufProps.lean.
+# loops) and of LzProofs/GenBufProps{Base,P,D}.lean.
 #
 # For every mutant: copy /repo to a scratch directory, apply a one-token (or one-statement)
-# change to parser_buffer.go / decoder_buffer.go, regenerate LzModel/Generated/Code.lean from
-# the mutated copy and run `lake build LzProofs.GenBufProps`.  The build has to FAIL; the
-# failing theorems are reported by name.  Mutants marked "extract" must be refused by the
-# extractor itself (construct outside of the supported subset).  At the end Code.lean is
-# regenerated from /repo, compared with the first generation, and the build has to succeed.
+# change to parser_buffer.go / decoder_buffer.go, regenerate the topic modules
+# LzModel/Generated/Code*.lean from the mutated copy and run `lake build LzProofs.GenBufProps`
+# (umbrella of GenBufPropsP = ParserBuffer, GenBufPropsD = DecoderBuffer without loops,
+# GenBufPropsDCopy = WriteMatch / WriteBlock).  The build has to
+# FAIL; the failing theorems are reported as <file>:<theorem>.  Mutants marked "extract" must be
+# refused by the extractor itself (construct outside of the supported subset): the translation
+# is emitted per topic, so "refused" means exit status 3 (partial) with the topic of the mutated
+# file among the refused ones — and the OTHER buffer's proof module must still build.  At the end
+# the code is regenerated from /repo, compared with the first generation, and the build has to
+# succeed.
 #
 # usage: tools/genbuf_selftest.sh     (exit status 0 iff every mutant is killed, the first
-#                                      part of Code.lean is the unchanged baseline, and the
+#                                      part of the generated code is the unchanged baseline, and the
 #                                      unmutated tree builds)
 set -u
 export GOFLAGS=-mod=mod GOPROXY=off GOSUMDB=off GOTOOLCHAIN=local
@@ -23,9 +28,9 @@ LEAN="${LEAN_DIR:-$HERE/lean}"
 SHARD="${SHARD:-0/1}"
 SHARD_I="${SHARD%/*}"
 SHARD_N="${SHARD#*/}"
-CODE="$LEAN/LzModel/Generated/Code.lean"
-PROPS="$LEAN/LzProofs/GenBufProps.lean"
-if [ "$LEAN" != "$HERE/lean" ]; then cp "$HERE/lean/LzProofs/GenBufProps.lean" "$PROPS"; fi
+GEN="$LEAN/LzModel/Generated"
+CODE="$GEN/Code.lean"
+if [ "$LEAN" != "$HERE/lean" ]; then cp "$HERE"/lean/LzProofs/GenBufProps*.lean "$LEAN/LzProofs/"; fi
 SCRATCH="$(mktemp -d /tmp/pf-genbuf-selftest.XXXXXX)"
 EXTRACT="$SCRATCH/extract"
 survived=0
@@ -42,9 +47,9 @@ trap cleanup EXIT
 (cd "$HERE/tools/extract" && go build -o "$EXTRACT" .) || { echo "cannot build the extractor"; exit 1; }
 
 failing_theorems() {
-  grep -o 'error: LzProofs/GenBufProps.lean:[0-9]*' "$1" | sed 's/.*://' | sort -n | uniq | while read -r ln; do
-    awk -v L="$ln" 'NR<=L && /^theorem /{name=$2} END{print name}' "$PROPS"
-  done | sort | uniq | tr '\n' ' '
+  grep -o 'error: LzProofs/GenBufProps[A-Za-z]*\.lean:[0-9]*' "$1" | sed 's/error: //' | sort -u | while IFS=: read -r f ln; do
+    awk -v L="$ln" -v F="$(basename "$f" .lean)" 'NR<=L && /^theorem /{name=$2} END{if (name=="") name="(import)"; print F ":" name}' "$LEAN/$f"
+  done | sort -u | tr '\n' ' '
 }
 
 build() { (cd "$LEAN" && lake build LzProofs.GenBufProps) >"$1" 2>&1; }
@@ -68,12 +73,28 @@ mutant() {
   fi
   local change
   change="$(diff "$REPO/$file" "$dir/$file" | grep '^[<>]' | head -4 | sed 's/^/      /')"
-  if ! "$EXTRACT" -repo "$dir" -out "$dir/facts.lean" -code "$CODE" 2>"$dir/extract.err"; then
-    if [ "$kind" = extract ]; then
-      echo "KILLED   $name  [refused by the extractor: $(head -1 "$dir/extract.err" | cut -c1-220)]"
-      killed=$((killed+1))
+  local rc refused
+  "$EXTRACT" -repo "$dir" -out "$dir/facts.lean" -code "$CODE" 2>"$dir/extract.err"
+  rc=$?
+  refused="$(grep -o 'topic [A-Za-z0-9]* REFUSED' "$dir/extract.err" | awk '{print $2}' | tr '\n' ' ' | sed 's/ $//')"
+  if [ $rc -ne 0 ]; then
+    if [ "$kind" = extract ] && [ $rc -eq 3 ] && [ -n "$refused" ]; then
+      # per-topic refusal: the proof module of a buffer whose topic was NOT refused still builds
+      local other="" ok=1
+      case " $refused " in *" PBuf "*) ;; *) other="$other LzProofs.GenBufPropsP" ;; esac
+      case " $refused " in *" DBuf "*) ;; *) other="$other LzProofs.GenBufPropsD" ;; esac
+      case " $refused " in *" DBuf "*|*" DBufCopy "*) ;; *) other="$other LzProofs.GenBufPropsDCopy" ;; esac
+      if [ -n "$other" ]; then (cd "$LEAN" && lake build $other) >"$dir/other.log" 2>&1 || ok=0; fi
+      if [ $ok -eq 1 ]; then
+        echo "KILLED   $name  [refused by the extractor, topics: $refused${other:+; still builds:$other} — $(grep -v REFUSED "$dir/extract.err" | head -1 | sed 's/^ *//' | cut -c1-200)]"
+        killed=$((killed+1))
+      else
+        echo "MUTANT $name: refused topics [$refused], but$other does not build any more"; survived=$((survived+1))
+      fi
+    elif [ "$kind" = extract ]; then
+      echo "MUTANT $name: extractor exit status $rc without a refused topic: $(head -3 "$dir/extract.err")"; survived=$((survived+1))
     else
-      echo "MUTANT $name: extractor failed unexpectedly: $(cat "$dir/extract.err")"; survived=$((survived+1))
+      echo "MUTANT $name: extractor failed unexpectedly (status $rc): $(cat "$dir/extract.err")"; survived=$((survived+1))
     fi
     rm -rf "$dir"; return
   fi
@@ -89,7 +110,7 @@ mutant() {
     local ft
     ft="$(failing_theorems "$dir/build.log")"
     if [ -z "$ft" ]; then
-      echo "KILLED?  $name  [the build fails outside of GenBufProps.lean: $(grep -m1 'error' "$dir/build.log" | cut -c1-200)]"
+      echo "KILLED?  $name  [the build fails outside of the GenBufProps files: $(grep -m1 'error' "$dir/build.log" | cut -c1-200)]"
       survived=$((survived+1))
     else
       echo "KILLED   $name  [failing: $ft]"
@@ -101,16 +122,19 @@ mutant() {
 
 echo "== baseline: code generated from $REPO builds, generation is deterministic, first part unchanged"
 "$EXTRACT" -repo "$REPO" -out "$SCRATCH/facts.lean" -code "$CODE" || exit 1
-cp "$CODE" "$SCRATCH/code1.lean"
-"$EXTRACT" -repo "$REPO" -out "$SCRATCH/facts2.lean" -code "$SCRATCH/code2.lean" || exit 1
-cmp "$SCRATCH/code1.lean" "$SCRATCH/code2.lean" || { echo "generation is not deterministic"; exit 1; }
-if [ -f "$LEAN/LzModel/Generated/Facts.lean" ]; then
-  cmp "$SCRATCH/facts.lean" "$LEAN/LzModel/Generated/Facts.lean" || { echo "Facts.lean output changed"; exit 1; }
+snapshot() { mkdir -p "$1"; cp "$GEN"/Code*.lean "$1"/; }
+snapshot "$SCRATCH/code1"
+mkdir -p "$SCRATCH/code2"
+"$EXTRACT" -repo "$REPO" -out "$SCRATCH/facts2.lean" -code "$SCRATCH/code2/Code.lean" || exit 1
+diff -r "$SCRATCH/code1" "$SCRATCH/code2" >/dev/null || { echo "generation is not deterministic"; exit 1; }
+if [ -f "$GEN/Facts.lean" ]; then
+  cmp "$SCRATCH/facts.lean" "$GEN/Facts.lean" || { echo "Facts.lean output changed"; exit 1; }
 fi
 if [ -f "$HERE/tools/baseline_Code.lean" ]; then
-  # Code.lean of the previous step (first part only) must be a prefix, up to its last line `end LZ.Gen`
-  n=$(($(wc -l <"$HERE/tools/baseline_Code.lean") - 1))
-  cmp <(head -n "$n" "$HERE/tools/baseline_Code.lean") <(head -n "$n" "$CODE") || { echo "the first part of Code.lean changed"; exit 1; }
+  # the function text of the first part must be what the monolithic Code.lean of the previous step contained
+  fns() { awk '/^\/-! ### functions -\//{f=1;next} /^\/-! ## second part|^end LZ.Gen/{f=0} f' "$@" | grep -v '^$'; }
+  cmp <(fns "$HERE/tools/baseline_Code.lean") <(fns "$GEN"/Code{Ints,Hash,Cost,Len,CfgBuf,CfgHash,CfgBucket,CfgHP,CfgBHP,CfgDHP,CfgBDHP,CfgBUP,CfgGSAP,CfgOSAP,Dec}.lean) \
+    || { echo "the first part of the generated code changed"; exit 1; }
 fi
 build "$SCRATCH/base.log" || { echo "baseline build FAILED"; tail -30 "$SCRATCH/base.log"; exit 1; }
 (cd "$LEAN" && lake build LzProofs.GenProps) >"$SCRATCH/base2.log" 2>&1 || { echo "GenProps build FAILED"; exit 1; }
@@ -206,7 +230,8 @@ mutant "unsupported: a package-level error variable that is assigned somewhere i
 
 echo "== restore: regenerate from $REPO and rebuild"
 "$EXTRACT" -repo "$REPO" -out "$SCRATCH/facts.lean" -code "$CODE" || exit 1
-cmp "$CODE" "$SCRATCH/code1.lean" || { echo "restored Code.lean differs from the baseline"; exit 1; }
+snapshot "$SCRATCH/code3"
+diff -r "$SCRATCH/code1" "$SCRATCH/code3" >/dev/null || { echo "the restored Code*.lean differ from the baseline"; exit 1; }
 if build "$SCRATCH/final.log"; then echo "   ok: LzProofs.GenBufProps builds"; else echo "   FINAL BUILD FAILED"; tail -30 "$SCRATCH/final.log"; exit 1; fi
 
 echo "== summary: $killed of $total mutants killed, $survived survived"
